@@ -574,6 +574,14 @@ def vcs(env, want):
     if not isinstance(sel, SymSet) or not cargs or cargs[0] is not env['func']:
         out.append(VC(c_set.full + ':selection_is_a_set', [], z3.BoolVal(False), c_set.props))
         return out
+    # the re-binding getter (used when the translator is fetched through an instance: the method is decorated again, without
+    # ``self``) must redo THIS decoration: same anchor, the names the caller listed - not the set computed for this function,
+    # which contains parameters (self) the bound method no longer has
+    from vf.interp import PartialObj
+    g = ckw.get('get')
+    ok_get = isinstance(g, PartialObj) and g.func is env['interp'].module('sigtools.modifiers').ns[mode] and len(g.args) == 2 and \
+        g.args[0] is env['anchor'] and g.args[1] is env['listed'] and not g.keywords.items_
+    out.append(VC(c_set.full + ':rebinding_getter_redoes_the_same_decoration', [], z3.BoolVal(bool(ok_get)), c_set.props))
     members = list(sel)
     goals = []
     at_or_after = z3.BoolVal(False)
